@@ -41,7 +41,7 @@ package witness
 //@   prefer oldSize <= 64 && nS <= 64 && pS <= 64
 //@   prefer len(cProof) <= 4
 //@   prefer len(w.Signers) <= 2 && len(w.Signers) >= 1
-//@   prefer nsig(nextRaw) >= 1 && kept(nextRaw, w.Signers) == nsig(nextRaw)
+//@   prefer nsig(nextRaw) >= 1
 //@   let cAttempt := counterUpdateAttempt
 //@   let cSuccess := counterUpdateSuccess
 //@   let cInvalid := counterInvalidConsistency
@@ -146,6 +146,8 @@ package witness
 
 //@ func New
 //@   returns (w, err)
+//@   // (New runs the metric initialiser through sync.Once: package-level counters and their ghost records may be assigned)
+//@   modifies globals, ctr_name, ctr_nlabels, ctr_label0
 //@   ensures[C02.w,C12.w] err == nil ==> w != nil && w.lsp == wo.Persistence && w.Signers == wo.Signers && w.Logs == wo.KnownLogs
 //@   ensures[C02.w,C12.w] err != nil ==> w == nil
 
